@@ -14,6 +14,9 @@ for d in dirs:
         continue
     prop = name.split("-")[0]
     meta = json.load(open(os.path.join(d, "meta.json")))
+    if meta.get("obsolete") and name not in want:
+        results.pop(name, None)
+        continue
     checks = [prop] + meta.get("also_checks", [])
     p = subprocess.run(["/verif/tools/seedcheck.sh", prop, d] + checks, stdout=subprocess.PIPE, stderr=subprocess.STDOUT, text=True)
     out = p.stdout
